@@ -6,6 +6,7 @@ use crate::Ctx;
 pub mod diag;
 pub mod dispatch;
 pub mod huge;
+pub mod prepos;
 pub mod adapter;
 pub mod builds;
 pub mod codes;
